@@ -439,6 +439,7 @@ pub fn def(tier: Tier) -> CheckDef {
             "left association is applied to un-parenthesised application, * /, and + - chains only, as the header of grammar.y states",
         ],
         idle_limit_s: 600,
+        needs_cli: false,
         parts: vec![
             Part {
                 name: "regressions",
